@@ -4,7 +4,7 @@
 
 #![allow(clippy::all)]
 
-include!("../../common/glue.rs");
+include!(concat!(env!("OUT_DIR"), "/glue.rs"));
 
 #[path = "../../tvc/src/util.rs"]
 mod util;
